@@ -7,6 +7,7 @@ import (
 	"go/ast"
 	"go/token"
 	"go/types"
+	"regexp"
 	"strconv"
 	"strings"
 )
@@ -142,6 +143,8 @@ func (b *builder) replace(r *ast.ReturnStmt, g []guard, dry bool) ([]ast.Stmt, i
 					}
 					if et := b.c.typeOf(es[i]); et != nil && types.Identical(et, want) {
 						continue
+					} else if et != nil && b.typeArgs != nil && b.instantiatedSame(et, want) {
+						continue // the helper is generic: its expression has the wanted type once the type arguments are put in
 					}
 					te := typeExpr(want, b.c.pkg.Types, b.c.file, b.c.info)
 					if te == nil {
@@ -614,4 +617,44 @@ func litLen(e ast.Expr) (int, bool) {
 func isZeroLit(e ast.Expr) bool {
 	bl, ok := unparen(e).(*ast.BasicLit)
 	return ok && bl.Value == "0"
+}
+
+// instantiatedSame: the type of an expression of the generic helper, written with the call's type arguments in the
+// places of the type parameters, reads the same as the wanted type.
+func (b *builder) instantiatedSame(et, want types.Type) bool {
+	sig := b.f.Sig()
+	if sig == nil || sig.TypeParams().Len() == 0 {
+		return false
+	}
+	q := func(p *types.Package) string { return p.Path() }
+	s := types.TypeString(et, q)
+	// the instance
+	var fid *ast.Ident
+	switch fx := unparen(b.call.Fun).(type) {
+	case *ast.Ident:
+		fid = fx
+	case *ast.SelectorExpr:
+		fid = fx.Sel
+	case *ast.IndexExpr:
+		fid = identOf(fx.X)
+	case *ast.IndexListExpr:
+		fid = identOf(fx.X)
+	}
+	if fid == nil {
+		return false
+	}
+	o, _ := b.c.orig(fid).(*ast.Ident)
+	if o == nil {
+		return false
+	}
+	inst, ok := b.c.info.Instances[o]
+	if !ok || inst.TypeArgs == nil || inst.TypeArgs.Len() != sig.TypeParams().Len() {
+		return false
+	}
+	for i := 0; i < sig.TypeParams().Len(); i++ {
+		name := sig.TypeParams().At(i).Obj().Name()
+		arg := types.TypeString(inst.TypeArgs.At(i), q)
+		s = regexp.MustCompile(`\b`+regexp.QuoteMeta(name)+`\b`).ReplaceAllString(s, arg)
+	}
+	return s == types.TypeString(want, q)
 }
